@@ -525,8 +525,8 @@ func Spec() *mon.Spec {
 			"the persistent store itself is assumed to follow refstore (checked by C24); a disagreement while building the history is counted inconclusive here",
 		},
 		Phases: []mon.Phase{
-			{Name: "hybrid", Quick: 2500, Thorough: 40000, Run: runHybrid, Timeout: 60 * time.Second},
-			{Name: "mem", Quick: 1000, Thorough: 10000, Run: runMem, Timeout: 60 * time.Second},
+			{Name: "hybrid", Quick: 5000, Thorough: 40000, Run: runHybrid, Timeout: 60 * time.Second},
+			{Name: "mem", Quick: 2000, Thorough: 10000, Run: runMem, Timeout: 60 * time.Second},
 		},
 		Floors: map[string]int{
 			"distinct_nontrivial": 500, "walks": 10000, "moves": 300000, "bumps_past_oldest": 10000, "bumps_past_newest": 10000,
